@@ -8,6 +8,7 @@ import (
 	"time"
 
 	"verifmon/internal/core"
+	"verifmon/internal/gen"
 )
 
 var c19Zones = []string{"UTC", "America/New_York", "Europe/London", "Asia/Kolkata", "Australia/Lord_Howe", "America/Sao_Paulo", "Africa/Cairo", "Pacific/Apia", "Asia/Tehran",
@@ -31,7 +32,7 @@ var c19 = core.Register(&core.Prop{
 	},
 	Floors: func(c map[string]int64, tier string) []string {
 		var out []string
-		for _, k := range []string{"date_cases", "date_carried", "field_cases", "adddate_cases", "usetimezone_cases", "usetimezone_unknown", "timeformat_cases", "now_cases", "today_cases", "near_transition", "millsecond_beyond_2262", "negated_extractor_cases", "fields_through_local_cases"} {
+		for _, k := range []string{"date_cases", "date_carried", "field_cases", "adddate_cases", "usetimezone_cases", "usetimezone_unknown", "timeformat_cases", "now_cases", "today_cases", "records_with_builtin_named_columns", "local_zone_switches", "near_transition", "millsecond_beyond_2262", "negated_extractor_cases", "fields_through_local_cases"} {
 			if c[k] == 0 {
 				out = append(out, "coverage floor: no "+k)
 			}
@@ -259,6 +260,16 @@ var c19Check = core.Mon(c19, "dates", func(w *core.W, c *DateCase) {
 	key := fmt.Sprintf("%s|%s|%v|%d|%d|%s|%s", os.Getenv("TZ"), c.Fn, c.Args, c.Unix, c.Nsec, c.Zone, c.Str)
 	t := time.Unix(c.Unix, c.Nsec).In(locOf(c.Zone))
 	data := map[string]interface{}{"t": t, "str": c.Str}
+	if core.Hash64(key)%3 == 0 {
+		// a record whose columns are named like the builtins the formulas call (year, month, day, date, now, ...): a
+		// bare name denotes the builtin whenever there is one, whatever the data holds
+		for _, b := range gen.Builtins {
+			if _, taken := data[b]; !taken {
+				data[b] = "column " + b
+			}
+		}
+		w.Count("records_with_builtin_named_columns")
+	}
 	nearTransition := func(x time.Time) bool {
 		return len(candidateOffsets(x)) > 1
 	}
@@ -571,7 +582,7 @@ func runC19(w *core.W) {
 	trans := transitions(time.Local)
 	zonesForData := []string{"UTC", "Local", "Asia/Shanghai", "America/New_York", "Australia/Lord_Howe", "Asia/Kathmandu", "fixed:EST:0", "fixed:Office/Basement:3600", "fixed:Europe/London:7200", "fixed:UTC:-3600"}
 	// date(y, m, d): systematic months/days for a few years, then random, then around transitions of the local zone
-	for _, y := range []int64{1, 4, 100, 400, 1582, 1899, 1900, 1970, 1999, 2000, 2024, 2038, 2100, 2262, 2263, 9999} {
+	for _, y := range []int64{0, 1, 4, 100, 400, 1582, 1899, 1900, 1970, 1999, 2000, 2024, 2038, 2100, 2262, 2263, 9999} {
 		for m := int64(-14); m <= 26; m++ {
 			for _, d := range []int64{-40, -1, 0, 1, 15, 28, 29, 30, 31, 32, 60} {
 				run(&DateCase{Fn: "date", Args: []int64{y, m, d}})
@@ -620,5 +631,27 @@ func runC19(w *core.W) {
 		run(&DateCase{Fn: "now"})
 		run(&DateCase{Fn: "toDay"})
 	}
+	// the host applies a configured zone after start-up (time.Local = loc): "local" follows it from then on
+	home := time.Local
+	for zi, alt := range []string{"Asia/Tokyo", "America/New_York", "Pacific/Kiritimati", "UTC", "Europe/London"} {
+		l, err := time.LoadLocation(alt)
+		if err != nil || alt == tz {
+			continue
+		}
+		time.Local = l
+		w.Count("local_zone_switches")
+		for i := 0; i < w.Pick(120, 1200); i++ {
+			run(&DateCase{Fn: "date", Args: []int64{1 + r.Int63n(9999), r.Int63n(101) - 40, r.Int63n(101) - 40}})
+			if i%10 == 0 {
+				u := r.Int63n(253402300800+62135596800) - 62135596800
+				run(&DateCase{Fn: "fields", Unix: u, Zone: "Local"})
+				run(&DateCase{Fn: "addDate", Unix: u, Zone: "Local", Args: []int64{0, r.Int63n(25) - 12, r.Int63n(63) - 31}})
+				run(&DateCase{Fn: "toDay"})
+				run(&DateCase{Fn: "now"})
+			}
+		}
+		_ = zi
+	}
+	time.Local = home
 	_ = rand.Intn
 }
